@@ -8,7 +8,7 @@ ROLES_PLAIN = [':ARG0', ':ARG1', ':ARG2', ':mod', ':domain', ':op1', ':op2', ':o
                # role of its own: usable only under the models that do not (R-base)
                ':consist', ':prep-on-behalf', ':x', ':u',
                # roles ending in -of that some tables define, literally or by a pattern
-               ':x-of', ':u-of', ':w-of', ':y-z-of', ':prep-out-of']
+               ':x-of', ':u-of', ':w-of', ':y-z-of', ':prep-out-of', ':w', ':op1-x-of', ':prep-on-top-of', ':r0-z', ':r']
 SYMS = ['-', '+', 'foo', 'bar', '7', '-1.5', '0', '0.0', '1e3', 'x', 'imperative', 'A',
         'b2', '\u03b5\u03c0', 'a.b', 'c,d', '^', "it's", '\u00a0', 'x\u2028y', '00', 'x\u3000y',
         '\u0085', 'p#q', 'mi\ufeffkh', 'z\u200bw', 'cafe\u0301', '\u212bngstr', '\u201cso\u201d', '\u201c1\u201d',
@@ -50,7 +50,10 @@ def usable_bases(rm, pool=ROLES_PLAIN, own=True):
         pool = base * max(1, (2 * len(extra)) // max(1, len(base))) + extra     # ~2/3 pool, ~1/3 inventory
     for b in pool:
         if rm.defines(b):
-            out.append(b)
+            # (a table that also defines b's inverse spelling as a role of its own leaves no way to
+            #  write an edge with role b from its target's side: R-base collision, O3)
+            if not rm.defines(rm.invert_role(b)):
+                out.append(b)
         elif not rm.inverted(b) and not rm.defines(rm.invert_role(b)):
             out.append(b)
     return out
